@@ -232,6 +232,47 @@ func loopCounterBits(fd *ast.FuncDecl) (int, error) {
 
 // callBefore: is `first` called unconditionally (in a top-level statement of the function body: an expression or
 // assignment statement, or the init/condition of a top-level if) before the top-level statement that calls `second`
+// callsUnconditionally: the function calls `name` in one of its top-level statements (not inside a branch body),
+// directly or through a package function that does (depth-limited)
+func callsUnconditionally(pkg map[string]*ast.FuncDecl, fd *ast.FuncDecl, name string, depth int) bool {
+	if fd == nil || fd.Body == nil || depth > 3 {
+		return false
+	}
+	for _, st := range fd.Body.List {
+		var parts []ast.Node
+		switch v := st.(type) {
+		case *ast.IfStmt:
+			if v.Init != nil {
+				parts = append(parts, v.Init)
+			}
+			parts = append(parts, v.Cond)
+		case *ast.AssignStmt, *ast.ExprStmt, *ast.ReturnStmt:
+			parts = append(parts, st)
+		}
+		for _, p := range parts {
+			hit := false
+			ast.Inspect(p, func(x ast.Node) bool {
+				if c, ok := x.(*ast.CallExpr); ok {
+					callee := exprString(c.Fun)
+					if callee == name {
+						hit = true
+					} else if g, ok := pkg[callee]; ok && g != fd && callsUnconditionally(pkg, g, name, depth+1) {
+						hit = true
+					}
+				}
+				return true
+			})
+			if hit {
+				return true
+			}
+		}
+	}
+	return false
+}
+
+// pkgFuncsForCalls: set by doMisc: the functions of package commands (for following helper calls)
+var pkgFuncsForCalls map[string]*ast.FuncDecl
+
 func callBefore(fd *ast.FuncDecl, first, second string) (bool, error) {
 	contains := func(n ast.Node, name string) bool {
 		found := false
@@ -239,8 +280,14 @@ func callBefore(fd *ast.FuncDecl, first, second string) (bool, error) {
 			return false
 		}
 		ast.Inspect(n, func(x ast.Node) bool {
-			if c, ok := x.(*ast.CallExpr); ok && exprString(c.Fun) == name {
-				found = true
+			if c, ok := x.(*ast.CallExpr); ok {
+				callee := exprString(c.Fun)
+				if callee == name {
+					found = true
+				} else if g, ok := pkgFuncsForCalls[callee]; ok && g != fd && callsUnconditionally(pkgFuncsForCalls, g, name, 1) {
+					// a helper that itself calls `name` unconditionally
+					found = true
+				}
 			}
 			return true
 		})
@@ -337,6 +384,7 @@ func doMisc(repo, outDir string) {
 	mem := funcs(parseDir(filepath.Join(repo, "memory")))
 	prof := funcs(parseDir(filepath.Join(repo, "profiler")))
 	cmds := funcs(parseDir(filepath.Join(repo, "commands")))
+	pkgFuncsForCalls = cmds
 	asm := funcs(parseDir(filepath.Join(repo, "assembler")))
 	b.WriteString("/-! width in bits of the counter of the address loops (declared type of the loop variable) -/\n")
 	for _, it := range []struct {
